@@ -103,22 +103,23 @@ Definition judge_run (strict : bool) (a o : list value) : option verdict :=
         let nr := Z.to_nat nref in let np := Z.to_nat npeer in
         let cfg := mkcfg (f_of_bits rb) (f_of_bits pb) cutoff timeout interval in
         let D := if mode =? 0 then sysclk_drift dval interval else dval in
-        let oracle_of (rs : list rnd) (opan : Z) (es : list event) : bool :=
+        let oracle_of (env : bool) (rs : list rnd) (opan : Z) (es : list event) : bool :=
           let drift_ok :=
             if mode =? 0 then forallb (fun e => match e with EDrift x r => C01_drift_ok dval x r | _ => true end) es
             else true in
-          C01_ok cfg nr np rs (negb (opan =? 0), es) && drift_ok &&
+          C01_ok_env env cfg nr np rs (negb (opan =? 0), es) && drift_ok &&
           (if strict then forallb (fun e => match e with EDo c => within c (cap (c_peer cfg) D) | _ => true end) es else true) in
         if (timeout =? 0) && ((0 <? npeer) || existsb round_has_kind0 rounds) then
           (* SyncTimeout = 0: the context of a round is over when it is created; whether an immediately answering
              source, or the local clock among the peers, is still counted is a tie for each of them.  Only the clauses
              that hold whatever values were collected are judged (all sources treated as not timely: start-up refusal,
-             one Do and one Sleep per round, the bound); the verdict is relational *)
+             one Do and one Sleep per round, the bound; env = false switches the clause about peers within the cutoff off);
+             the verdict is relational *)
           let rs := map (fun _ => mkrnd (repeat Failed nr) (repeat Failed np)) rounds in
           match o with
           | [VZ opan; VL oevs] =>
               match events_of_values oevs with
-              | Some es => let ok := oracle_of rs opan es in Some (relational ok ok)
+              | Some es => let ok := oracle_of false rs opan es in Some (relational ok ok)
               | None => Some (relational false true)
               end
           | _ => Some (relational false true)
@@ -132,7 +133,7 @@ Definition judge_run (strict : bool) (a o : list value) : option verdict :=
             match o with
             | [VZ opan; VL oevs] =>
                 match events_of_values oevs with
-                | Some es => Some (functional expected o (oracle_of rs opan es))
+                | Some es => Some (functional expected o (oracle_of true rs opan es))
                 (* an observation that is not a sequence of Do / Sleep / Drift events (the harness writes [3 _] for
                    any other call of the clock, which Run never makes): the oracle cannot be evaluated and is left
                    true; the model comparison fails (the expected sequence has only kinds 0, 1, 2), so the case is
@@ -149,7 +150,7 @@ Definition judge_run (strict : bool) (a o : list value) : option verdict :=
             match o with
             | [VZ opan; VL oevs] =>
                 match events_of_values oevs with
-                | Some es => Some (relational (existsb agrees rss) (existsb (fun rs => oracle_of rs opan es) rss))
+                | Some es => Some (relational (existsb agrees rss) (existsb (fun rs => oracle_of true rs opan es) rss))
                 | None => Some (relational false true)
                 end
             | _ => Some (relational false true)
